@@ -25,6 +25,7 @@ META = dict(
 META["text"] += ' Sample numbers are re-derived from the seed and the position alone, never from what earlier rounds did to the records (= C07.R5).'
 META["text"] += ' R4 also borrows C07.R6 (both samples sorted in place by the same selection-order key).'
 META["text"] += ' R1 also borrows C07.R2 and C07.R4: the selection reads styles and sample numbers only, not the `sampled` flags an earlier round wrote.'
+META["text"] += " R4 also borrows the threshold filter of C06.R4 (a card within one round's threshold is within the next round's)."
 
 
 def _norm_empty(e):
